@@ -23,5 +23,7 @@ CONSTANTS
   MinSteps = 3
   MaxSteps = 3
   RationalOnly = FALSE
+  BindLeaves = FALSE
+  EmitOn = TRUE
   NameSeq <- cNoSeq
 CHECK_DEADLOCK FALSE
